@@ -366,7 +366,7 @@ class InherentOperand(Operand):
             raise OperandTypeError("[{}] is not an inherent value".format(operand_string))
 
     def translate(self):
-        if not self.instruction.mode.inh:
+        if self.instruction.mode.inh is None:
             raise OperandTypeError("Instruction [{}] requires an operand".format(self.instruction.mnemonic))
         return CodePackage(
             op_code=NumericValue(self.instruction.mode.inh),
@@ -391,7 +391,7 @@ class ImmediateOperand(Operand):
             raise OperandTypeError("[{}] is not an immediate value".format(operand_string))
 
     def translate(self):
-        if not self.instruction.mode.imm:
+        if self.instruction.mode.imm is None:
             raise OperandTypeError(
                 "Instruction [{}] does not support immediate addressing".format(self.instruction.mnemonic)
             )
@@ -417,7 +417,7 @@ class DirectOperand(Operand):
             raise OperandTypeError("[{}] is not a direct value".format(self.operand_string))
 
     def translate(self):
-        if not self.instruction.mode.dir:
+        if self.instruction.mode.dir is None:
             raise OperandTypeError(
                 "Instruction [{}] does not support direct addressing".format(self.instruction.mnemonic)
             )
@@ -444,7 +444,7 @@ class ExtendedOperand(Operand):
             self.value = Value.create_from_str(operand_string, instruction)
 
     def translate(self):
-        if not self.instruction.mode.ext:
+        if self.instruction.mode.ext is None:
             raise OperandTypeError(
                 "Instruction [{}] does not support extended addressing".format(self.instruction.mnemonic)
             )
@@ -487,7 +487,7 @@ class ExtendedIndexedOperand(Operand):
         return self
 
     def translate(self):
-        if not self.instruction.mode.ind:
+        if self.instruction.mode.ind is None:
             raise OperandTypeError(
                 "Instruction [{}] does not support indexed addressing".format(self.instruction.mnemonic)
             )
@@ -634,7 +634,7 @@ class IndexedOperand(Operand):
         return self
 
     def translate(self):
-        if not self.instruction.mode.ind:
+        if self.instruction.mode.ind is None:
             raise OperandTypeError(
                 "Instruction [{}] does not support indexed addressing".format(self.instruction.mnemonic)
             )
